@@ -1,21 +1,23 @@
-// reconcile: core/task/manager.go handleMessage — the rule "reconciliation update for a task in
-// one of these Mesos states -> KILL" (C18, model Reconcile.v):
-//   - the list of mesos.TASK_* states of the disjunction,
-//   - whether the condition skips the tasks found in the roster of the current life (it does since
-//     the repair of C18-a: `m.roster.getByTaskId(<task id of the status>) == nil`, or an equivalent
-//     form - lookup != nil negated, m.roster.contains(func(t) { return t.taskId == id }) negated,
-//     parts hoisted into local variables; a test that also looks at the status / lock / state of the
-//     roster task is rejected; without the conjunct recon_guarded = false and the full theorem of
-//     props/C18.v no longer checks),
-//   - the skeleton the model takes for granted: the reason literal is the name of
-//     mesos.REASON_RECONCILIATION, the guarded block builds calls.Kill and sends it, the status is
-//     handed to updateTaskStatus only in the else branch; core/task/scheduler.go reconciliationCall
-//     sends calls.Reconcile(calls.ReconcileTasks(nil)) and is installed in the SUBSCRIBED chain after
-//     controller.TrackSubscription; NewManager reads and writes the runtime entry aliecs/mesos_fid,
+// reconcile: core/task/manager.go handleMessage - the rule "reconciliation update for a task in
+// one of these Mesos states -> KILL" (C18, model Reconcile.v), read semantically (symwalk.go): the
+// function is walked with path conditions, helpers of the package are inlined, local variables and
+// package constants are read through, and the conditions under which calls.Kill(<task id of the
+// status>) is sent / the status is handed to updateTaskStatus are evaluated on every combination
+// of (reason is RECONCILIATION, task id in the roster, Mesos state).  Facts:
+//   - the Mesos states for which an unknown task is killed (recon_kill_states),
+//   - whether tasks found in the roster are spared (recon_guarded; true since the repair of C18-a),
+//   - exactly one of KILL / updateTaskStatus happens for every status, KILL only for reconciliation
+//     updates, and nothing else has a say (a test that also looks at the status, lock or state of
+//     the roster task - seeded C18-2 - is rejected),
+//   - core/task/scheduler.go: reconciliationCall sends calls.Reconcile(calls.ReconcileTasks(nil)) and
+//     is installed in the SUBSCRIBED chain after controller.TrackSubscription; NewManager reads and
+//     writes the runtime entry aliecs/mesos_fid,
 //   - whether doKillTasks sends KILL only to the ACTIVE tasks of the set it removes from the roster
 //     or to the others as well (kill_inactive; the repair of C06-b added the second loop),
-//   - which Mesos states make updateTaskStatus set a roster task ACTIVE / INACTIVE (a roster task of a
-//     live environment can be INACTIVE while the master has it alive: launch window, TASK_LOST).
+//   - which Mesos states make updateTaskStatus set a roster task ACTIVE / INACTIVE.
+// Clean-ups that leave the decision alone (helper extraction, || chain <-> switch, early returns,
+// enum instead of name comparison, named constants, renamed or hoisted locals, reordering) give the
+// same tables.
 package main
 
 import (
@@ -98,308 +100,219 @@ func rcHasCall(n ast.Node, pkg, name string) bool {
 	return found
 }
 
-// Local variables of handleMessage that are defined exactly once (`x := e`) are read through, so
-// that hoisting a part of the test into a variable (taskId := ..., inRoster := ..., killable := ...)
-// does not change what the translator sees.  The names the rest of the translator keys on stay.
-var rcDefs map[string]ast.Expr
-
-func rcCollectDefs(body *ast.BlockStmt) {
-	rcDefs = map[string]ast.Expr{}
-	count := map[string]int{}
-	ast.Inspect(body, func(x ast.Node) bool {
-		switch v := x.(type) {
-		case *ast.AssignStmt:
-			for i, l := range v.Lhs {
-				id, ok := l.(*ast.Ident)
-				if !ok {
-					continue
+// rcTable evaluates marker conditions on every assignment of their atoms.  `known` says which atoms
+// the caller enumerates itself through `points` (one assignment per point); all other atoms are
+// opaque: for every assignment of those, the row (all formulas at all points) must either be
+// all-false (a path that has nothing to do with the decision) or be one and the same row.
+func rcTable(what string, fs []*form, known func(string) bool, points []func(string) bool) [][]bool {
+	set := map[string]bool{}
+	for _, f := range fs {
+		f.atoms(set)
+	}
+	var opaque []string
+	for a := range set {
+		if !known(a) {
+			opaque = append(opaque, a)
+		}
+	}
+	sort.Strings(opaque)
+	if len(opaque) > 16 {
+		die("%s: the decision depends on too many conditions the translator cannot read (%d)", what, len(opaque))
+	}
+	idx := map[string]int{}
+	for i, a := range opaque {
+		idx[a] = i
+	}
+	var found [][]bool
+	var foundKey string
+	for mask := 0; mask < 1<<len(opaque); mask++ {
+		rows := make([][]bool, len(fs))
+		any := false
+		var key strings.Builder
+		for fi, f := range fs {
+			rows[fi] = make([]bool, len(points))
+			for pi, pt := range points {
+				v := f.eval(func(a string) bool {
+					if i, ok := idx[a]; ok {
+						return mask&(1<<i) != 0
+					}
+					return pt(a)
+				})
+				rows[fi][pi] = v
+				if v {
+					any = true
+					key.WriteByte('1')
+				} else {
+					key.WriteByte('0')
 				}
-				count[id.Name]++
-				if v.Tok == token.DEFINE && len(v.Lhs) == len(v.Rhs) {
-					rcDefs[id.Name] = v.Rhs[i]
-				}
-			}
-		case *ast.RangeStmt:
-			for _, l := range []ast.Expr{v.Key, v.Value} {
-				if id, ok := l.(*ast.Ident); ok {
-					count[id.Name] += 2
-				}
 			}
 		}
-		return true
-	})
-	for n := range rcDefs {
-		if count[n] != 1 {
-			delete(rcDefs, n)
-		}
-	}
-	for _, n := range []string{"mesosStatus", "mesosState", "tm", "m"} {
-		delete(rcDefs, n)
-	}
-}
-
-func rcResolve(e ast.Expr, depth int) ast.Expr {
-	switch v := e.(type) {
-	case *ast.Ident:
-		if d, ok := rcDefs[v.Name]; ok && depth < 5 {
-			r := rcResolve(d, depth+1)
-			if _, bin := r.(*ast.BinaryExpr); bin {
-				return &ast.ParenExpr{X: r}
-			}
-			return r
-		}
-		return v
-	case *ast.ParenExpr:
-		return &ast.ParenExpr{X: rcResolve(v.X, depth)}
-	case *ast.BinaryExpr:
-		return &ast.BinaryExpr{X: rcResolve(v.X, depth), Op: v.Op, Y: rcResolve(v.Y, depth)}
-	case *ast.UnaryExpr:
-		return &ast.UnaryExpr{Op: v.Op, X: rcResolve(v.X, depth)}
-	case *ast.SelectorExpr:
-		return &ast.SelectorExpr{X: rcResolve(v.X, depth), Sel: v.Sel}
-	case *ast.CallExpr:
-		args := make([]ast.Expr, len(v.Args))
-		for i, a := range v.Args {
-			args[i] = rcResolve(a, depth)
-		}
-		return &ast.CallExpr{Fun: rcResolve(v.Fun, depth), Args: args}
-	}
-	return e
-}
-
-func rcUnparen(e ast.Expr) ast.Expr {
-	for {
-		p, ok := e.(*ast.ParenExpr)
-		if !ok {
-			return e
-		}
-		e = p.X
-	}
-}
-
-// the task id of the status update being handled
-func rcIsStatusTaskId(e ast.Expr) bool {
-	src := rcSrc(rcResolve(e, 0))
-	return strings.Contains(src, "mesosStatus ") && strings.Contains(src, "TaskID")
-}
-
-func rcIsNil(e ast.Expr) bool {
-	id, ok := rcUnparen(e).(*ast.Ident)
-	return ok && id.Name == "nil"
-}
-
-// rcIsRosterLookup: m.roster.getByTaskId(<task id of the status>) or the exported m.GetTask(..)
-func rcIsRosterLookup(e ast.Expr) bool {
-	c, ok := rcUnparen(e).(*ast.CallExpr)
-	if !ok || len(c.Args) != 1 {
-		return false
-	}
-	s, ok := c.Fun.(*ast.SelectorExpr)
-	if !ok {
-		return false
-	}
-	switch s.Sel.Name {
-	case "getByTaskId":
-		r, ok := s.X.(*ast.SelectorExpr)
-		if !ok || r.Sel.Name != "roster" {
-			return false
-		}
-		if id, ok := r.X.(*ast.Ident); !ok || id.Name != "m" {
-			return false
-		}
-	case "GetTask":
-		if id, ok := s.X.(*ast.Ident); !ok || id.Name != "m" {
-			return false
-		}
-	default:
-		return false
-	}
-	return rcIsStatusTaskId(c.Args[0])
-}
-
-// rcIsRosterHit: "the task IS in the roster", by task id and by nothing else: `<lookup> != nil`, or
-// m.roster.contains(func(t *Task) bool { return t.taskId == <task id of the status> }).
-// A predicate that looks at anything but the id (status, lock, state) is not the rule of the model.
-func rcIsRosterHit(e ast.Expr) bool {
-	e = rcUnparen(e)
-	switch v := e.(type) {
-	case *ast.UnaryExpr:
-		return v.Op == token.NOT && rcIsRosterMiss(v.X)
-	case *ast.BinaryExpr:
-		return v.Op == token.NEQ && ((rcIsNil(v.Y) && rcIsRosterLookup(v.X)) || (rcIsNil(v.X) && rcIsRosterLookup(v.Y)))
-	case *ast.CallExpr:
-		s, ok := v.Fun.(*ast.SelectorExpr)
-		if !ok || s.Sel.Name != "contains" || len(v.Args) != 1 {
-			return false
-		}
-		r, ok := s.X.(*ast.SelectorExpr)
-		if !ok || r.Sel.Name != "roster" {
-			return false
-		}
-		fl, ok := v.Args[0].(*ast.FuncLit)
-		if !ok || len(fl.Body.List) != 1 || fl.Type.Params == nil || len(fl.Type.Params.List) != 1 || len(fl.Type.Params.List[0].Names) != 1 {
-			return false
-		}
-		param := fl.Type.Params.List[0].Names[0].Name
-		ret, ok := fl.Body.List[0].(*ast.ReturnStmt)
-		if !ok || len(ret.Results) != 1 {
-			return false
-		}
-		b, ok := rcUnparen(ret.Results[0]).(*ast.BinaryExpr)
-		if !ok || b.Op != token.EQL {
-			return false
-		}
-		isParamId := func(x ast.Expr) bool {
-			x = rcUnparen(x)
-			if c, ok := x.(*ast.CallExpr); ok && len(c.Args) == 0 {
-				x = c.Fun
-				if sel, ok := x.(*ast.SelectorExpr); ok && sel.Sel.Name == "GetTaskId" {
-					id, ok := sel.X.(*ast.Ident)
-					return ok && id.Name == param
-				}
-				return false
-			}
-			sel, ok := x.(*ast.SelectorExpr)
-			if !ok || sel.Sel.Name != "taskId" {
-				return false
-			}
-			id, ok := sel.X.(*ast.Ident)
-			return ok && id.Name == param
-		}
-		return (isParamId(b.X) && rcIsStatusTaskId(b.Y)) || (isParamId(b.Y) && rcIsStatusTaskId(b.X))
-	}
-	return false
-}
-
-// rcIsRosterMiss: "the task is NOT in the roster of the current life": `<lookup> == nil` or the
-// negation of a roster hit.
-func rcIsRosterMiss(e ast.Expr) bool {
-	e = rcUnparen(e)
-	switch v := e.(type) {
-	case *ast.UnaryExpr:
-		return v.Op == token.NOT && rcIsRosterHit(v.X)
-	case *ast.BinaryExpr:
-		return v.Op == token.EQL && ((rcIsNil(v.Y) && rcIsRosterLookup(v.X)) || (rcIsNil(v.X) && rcIsRosterLookup(v.Y)))
-	}
-	return false
-}
-
-// rcReasonTest: `<...GetReason()...>.String() == "REASON_x"` or `<...GetReason()> == mesos.REASON_x`
-func rcReasonTest(e ast.Expr) (string, bool) {
-	b, ok := rcUnparen(e).(*ast.BinaryExpr)
-	if !ok || b.Op != token.EQL {
-		return "", false
-	}
-	for _, xy := range [][2]ast.Expr{{b.X, b.Y}, {b.Y, b.X}} {
-		if !strings.Contains(rcSrc(xy[0]), "GetReason") {
+		if !any {
 			continue
 		}
-		if s, ok := strLit(rcUnparen(xy[1])); ok && strings.HasPrefix(s, "REASON_") {
-			return s, true
-		}
-		if sel, ok := rcUnparen(xy[1]).(*ast.SelectorExpr); ok && strings.HasPrefix(sel.Sel.Name, "REASON_") {
-			return sel.Sel.Name, true
+		if found == nil {
+			found, foundKey = rows, key.String()
+		} else if key.String() != foundKey {
+			// name the conditions that matter: flipping them alone changes a row that is taken
+			rowKey := func(m int) string {
+				var b strings.Builder
+				for _, f := range fs {
+					for _, pt := range points {
+						if f.eval(func(a string) bool {
+							if i, ok := idx[a]; ok {
+								return m&(1<<i) != 0
+							}
+							return pt(a)
+						}) {
+							b.WriteByte('1')
+						} else {
+							b.WriteByte('0')
+						}
+					}
+				}
+				return b.String()
+			}
+			var culprits []string
+			for i, a := range opaque {
+				for m := 0; m < 1<<len(opaque); m++ {
+					k1, k2 := rowKey(m), rowKey(m^(1<<i))
+					if k1 != k2 && strings.Contains(k1, "1") && strings.Contains(k2, "1") {
+						culprits = append(culprits, strings.TrimPrefix(a, "u:"))
+						break
+					}
+				}
+			}
+			die("%s: the decision also depends on something the model does not know: %s", what, strings.Join(culprits, " ; "))
 		}
 	}
-	return "", false
+	if found == nil {
+		die("%s: the decision is never taken", what)
+	}
+	return found
+}
+
+func rcMethod(pkg *symPkg, recv, name string) *ast.FuncDecl {
+	for _, fd := range pkg.funcs[name] {
+		if recvTypeName(fd) == recv {
+			return fd
+		}
+	}
+	return nil
+}
+
+func rcRootEnv(fd *ast.FuncDecl, param sval) *senv {
+	env := (&senv{}).child()
+	if fd.Type.Params != nil && len(fd.Type.Params.List) >= 1 && len(fd.Type.Params.List[0].Names) >= 1 {
+		env.bind(fd.Type.Params.List[0].Names[0].Name, param)
+	}
+	return env
 }
 
 func reconcileRule() string {
 	_, f := parseFile("core/task/manager.go")
-	fd := findFunc(f, "Manager", "handleMessage")
+	pkg := loadSymPkg("core/task")
+	fd := rcMethod(pkg, "Manager", "handleMessage")
 	if fd == nil {
 		die("Manager.handleMessage not found")
 	}
-	// the if statement whose condition compares the reason of the status with the reconciliation reason
-	rcCollectDefs(fd.Body)
-	var theIf *ast.IfStmt
-	var reason string
-	ast.Inspect(fd.Body, func(x ast.Node) bool {
-		is, ok := x.(*ast.IfStmt)
+	// Under which condition does handling a task status message send calls.Kill for the task of the
+	// status, and under which does it hand the status to updateTaskStatus?  (read semantically:
+	// harness/cmd/translate/symwalk.go)
+	w := &symWalk{pkg: pkg, recvType: "Manager", markers: map[string]*form{}, maxDepth: 3}
+	w.onCall = func(w *symWalk, c *ast.CallExpr, env *senv) string {
+		sel, ok := c.Fun.(*ast.SelectorExpr)
 		if !ok {
-			return true
+			return ""
 		}
-		var conj []ast.Expr
-		rcFlattenAnd(rcResolve(is.Cond, 0), &conj)
-		for _, c := range conj {
-			if s, ok := rcReasonTest(c); ok {
-				if theIf != nil {
-					die("handleMessage: more than one reconciliation test")
-				}
-				theIf, reason = is, s
+		if id, ok := sel.X.(*ast.Ident); ok && id.Name == "calls" && strings.HasPrefix(sel.Sel.Name, "Call") && len(c.Args) >= 3 {
+			if w.val(c.Args[2], env).kind == svKillCall {
+				return "kill"
 			}
 		}
-		return true
-	})
-	if theIf == nil {
-		die("handleMessage: no `...GetReason().String() == \"REASON_...\"` test found")
+		if sel.Sel.Name == "updateTaskStatus" && len(c.Args) == 1 && w.val(c.Args[0], env).kind == svStatus {
+			return "update"
+		}
+		return ""
 	}
-	if reason != mesos.REASON_RECONCILIATION.String() {
-		die("handleMessage tests the reason %q, the name of mesos.REASON_RECONCILIATION is %q", reason, mesos.REASON_RECONCILIATION.String())
+	w.walk(fd.Body.List, fT, rcRootEnv(fd, sval{kind: svMsg}))
+	kill, upd := w.markers["kill"], w.markers["update"]
+	if kill == nil {
+		die("handleMessage: no path sends calls.Kill(<task id of the status>, ..) with calls.CallNoData")
 	}
-	var conj []ast.Expr
-	rcFlattenAnd(rcResolve(theIf.Cond, 0), &conj)
+	if upd == nil {
+		die("handleMessage: no path hands the status to updateTaskStatus")
+	}
+	reconAtom := "R:" + mesos.REASON_RECONCILIATION.String()
+	var stateVals []int32
+	for v := range mesos.TaskState_name {
+		stateVals = append(stateVals, v)
+	}
+	sort.Slice(stateVals, func(i, j int) bool { return stateVals[i] < stateVals[j] })
+	type pt struct {
+		r, i bool
+		v    int32
+	}
+	var pts []pt
+	var points []func(string) bool
+	for _, r := range []bool{false, true} {
+		for _, in := range []bool{false, true} {
+			for _, v := range stateVals {
+				p := pt{r, in, v}
+				pts = append(pts, p)
+				points = append(points, func(a string) bool {
+					switch {
+					case a == reconAtom:
+						return p.r
+					case a == "I":
+						return p.i
+					default:
+						return mesos.TaskState_name[p.v] == strings.TrimPrefix(a, "S:")
+					}
+				})
+			}
+		}
+	}
+	known := func(a string) bool { return a == reconAtom || a == "I" || strings.HasPrefix(a, "S:") }
+	tab := rcTable("handleMessage (REASON_RECONCILIATION -> KILL)", []*form{kill, upd}, known, points)
+	K := func(r, in bool, v int32) bool {
+		for i, p := range pts {
+			if p.r == r && p.i == in && p.v == v {
+				return tab[0][i]
+			}
+		}
+		return false
+	}
+	for i := range pts {
+		if tab[0][i] == tab[1][i] {
+			die("handleMessage: a task status is no longer either answered with KILL or handed to updateTaskStatus (reconciliation %v, in roster %v, state %s: kill %v, update %v)",
+				pts[i].r, pts[i].i, mesos.TaskState_name[pts[i].v], tab[0][i], tab[1][i])
+		}
+	}
 	var states []int32
 	var names []string
-	guarded := false
-	for _, c := range conj {
-		src := rcSrc(c)
-		if _, ok := rcReasonTest(c); ok {
-			continue
+	guardedAll, unguardedAll := true, true
+	for _, v := range stateVals {
+		if K(false, false, v) || K(false, true, v) {
+			die("handleMessage: KILL is sent for a status whose reason is not REASON_RECONCILIATION (state %s)", mesos.TaskState_name[v])
 		}
-		var disj []ast.Expr
-		rcFlattenOr(c, &disj)
-		allStates := len(disj) > 0
-		var st []int32
-		var nm []string
-		for _, d := range disj {
-			b, ok := rcUnparen(d).(*ast.BinaryExpr)
-			if !ok || b.Op != token.EQL || !strings.Contains(rcSrc(b.X), "mesosState") {
-				allStates = false
-				break
-			}
-			sel, ok := b.Y.(*ast.SelectorExpr)
-			if !ok {
-				allStates = false
-				break
-			}
-			v, ok := mesos.TaskState_value[sel.Sel.Name]
-			if !ok {
-				allStates = false
-				break
-			}
-			st = append(st, v)
-			nm = append(nm, sel.Sel.Name)
+		if K(true, false, v) {
+			states = append(states, v)
+			names = append(names, mesos.TaskState_name[v])
 		}
-		if allStates {
-			if states != nil {
-				die("handleMessage: two state disjunctions in the reconciliation test")
-			}
-			states, names = st, nm
-			continue
+		if K(true, true, v) {
+			guardedAll = false
 		}
-		// any other conjunct: the only one the model knows is "the task is not in the roster"
-		if rcIsRosterMiss(c) {
-			if guarded {
-				die("handleMessage: two roster lookups in the reconciliation test")
-			}
-			guarded = true
-			continue
+		if K(true, true, v) != K(true, false, v) {
+			unguardedAll = false
 		}
-		die("handleMessage: reconciliation test has a conjunct the model does not know: %s", src)
 	}
 	if states == nil {
-		die("handleMessage: no `mesosState == mesos.TASK_x || ...` disjunction in the reconciliation test")
+		die("handleMessage: no Mesos state makes a reconciliation update of an unknown task send KILL")
 	}
-	if !rcHasCall(theIf.Body, "calls", "Kill") || !rcHasCall(theIf.Body, "calls", "CallNoData") {
-		die("handleMessage: the reconciliation branch no longer builds calls.Kill and sends it with calls.CallNoData")
+	if !guardedAll && !unguardedAll {
+		die("handleMessage: whether a roster task is spared by the reconciliation rule depends on its Mesos state")
 	}
-	if rcHasCall(theIf.Body, "", "updateTaskStatus") {
-		die("handleMessage: the reconciliation branch also calls updateTaskStatus")
-	}
-	if theIf.Else == nil || !rcHasCall(theIf.Else, "", "updateTaskStatus") {
-		die("handleMessage: the else branch of the reconciliation test does not call updateTaskStatus")
-	}
+	guarded := guardedAll
 
 	// scheduler.go: reconciliationCall and its place in the SUBSCRIBED chain
 	_, sf := parseFile("core/task/scheduler.go")
@@ -489,16 +402,61 @@ func reconcileRule() string {
 		die("Manager.doKillTasks not found")
 	}
 	killActive, killInactive := false, false
+	dkDefs := map[string]ast.Expr{}
+	ast.Inspect(dk.Body, func(x ast.Node) bool {
+		if as, ok := x.(*ast.AssignStmt); ok && as.Tok == token.DEFINE && len(as.Lhs) == len(as.Rhs) {
+			for i, l := range as.Lhs {
+				if id, ok := l.(*ast.Ident); ok {
+					dkDefs[id.Name] = as.Rhs[i]
+				}
+			}
+		}
+		return true
+	})
+	// which tasks a loop ranges over: `<set>.Filtered(func(t) bool { return t.status ==/!= ACTIVE })`,
+	// possibly through a local variable
+	classify := func(e ast.Expr) string {
+		for i := 0; i < 4; i++ {
+			id, ok := e.(*ast.Ident)
+			if !ok {
+				break
+			}
+			d, ok := dkDefs[id.Name]
+			if !ok {
+				break
+			}
+			e = d
+		}
+		res := ""
+		ast.Inspect(e, func(x ast.Node) bool {
+			b, ok := x.(*ast.BinaryExpr)
+			if !ok || (b.Op != token.EQL && b.Op != token.NEQ) {
+				return true
+			}
+			for _, xy := range [][2]ast.Expr{{b.X, b.Y}, {b.Y, b.X}} {
+				if id, ok := xy[1].(*ast.Ident); ok && id.Name == "ACTIVE" && strings.Contains(rcSrc(xy[0]), "status") {
+					if b.Op == token.EQL {
+						res = "active"
+					} else {
+						res = "inactive"
+					}
+				}
+			}
+			return true
+		})
+		return res
+	}
 	ast.Inspect(dk.Body, func(x ast.Node) bool {
 		rs, ok := x.(*ast.RangeStmt)
-		if !ok || !rcHasCall(rs.Body, "", "doKillTask") {
+		if !ok || !(rcHasCall(rs.Body, "", "doKillTask") || rcHasCall(rs.Body, "", "killTask")) {
 			return true
 		}
-		if id, ok := rs.X.(*ast.Ident); ok && id.Name == "inactiveTasks" {
-			killInactive = true
-		} else if strings.Contains(rcSrc(rs.X), "ACTIVE") {
+		switch classify(rs.X) {
+		case "active":
 			killActive = true
-		} else {
+		case "inactive":
+			killInactive = true
+		default:
 			die("doKillTasks: a loop sends KILL to a set of tasks the model does not know: %s", rcSrc(rs.X))
 		}
 		return true
@@ -509,54 +467,50 @@ func reconcileRule() string {
 
 	// updateTaskStatus: which Mesos states make a roster task ACTIVE / INACTIVE (the status a task of
 	// the roster has has no say in the reconciliation rule: the model spares every roster task)
-	us := findFunc(f, "Manager", "updateTaskStatus")
+	us := rcMethod(pkg, "Manager", "updateTaskStatus")
 	if us == nil {
 		die("Manager.updateTaskStatus not found")
 	}
+	uw := &symWalk{pkg: pkg, recvType: "Manager", markers: map[string]*form{}, maxDepth: 3}
+	uw.onAssign = func(w *symWalk, a *ast.AssignStmt, env *senv) string {
+		if len(a.Lhs) != 1 || len(a.Rhs) != 1 {
+			return ""
+		}
+		l, ok := a.Lhs[0].(*ast.SelectorExpr)
+		if !ok || l.Sel.Name != "status" {
+			return ""
+		}
+		switch v := w.val(a.Rhs[0], env); {
+		case v.kind == svStatusWord && v.name == "ACTIVE":
+			return "act"
+		case v.kind == svStatusWord && v.name == "INACTIVE":
+			return "deact"
+		}
+		die("updateTaskStatus assigns the task status %s, unknown to the model", w.src(a.Rhs[0]))
+		return ""
+	}
+	uw.walk(us.Body.List, fT, rcRootEnv(us, sval{kind: svStatus}))
+	if uw.markers["act"] == nil || uw.markers["deact"] == nil {
+		die("updateTaskStatus: no path sets the status of the roster task to ACTIVE / to INACTIVE")
+	}
+	var spoints []func(string) bool
+	for _, v := range stateVals {
+		v := v
+		spoints = append(spoints, func(a string) bool { return mesos.TaskState_name[v] == strings.TrimPrefix(a, "S:") })
+	}
+	stab := rcTable("updateTaskStatus (ACTIVE / INACTIVE)", []*form{uw.markers["act"], uw.markers["deact"]},
+		func(a string) bool { return strings.HasPrefix(a, "S:") }, spoints)
 	var activating, deactivating []int32
-	ast.Inspect(us.Body, func(x ast.Node) bool {
-		cc, ok := x.(*ast.CaseClause)
-		if !ok {
-			return true
+	for i, v := range stateVals {
+		if stab[0][i] && stab[1][i] {
+			die("updateTaskStatus: state %s makes the task both ACTIVE and INACTIVE", mesos.TaskState_name[v])
 		}
-		var sts []int32
-		for _, e := range cc.List {
-			sel, ok := e.(*ast.SelectorExpr)
-			if !ok {
-				return true
-			}
-			v, ok := mesos.TaskState_value[sel.Sel.Name]
-			if !ok {
-				return true
-			}
-			sts = append(sts, v)
+		if stab[0][i] {
+			activating = append(activating, v)
 		}
-		if len(sts) == 0 {
-			return true
+		if stab[1][i] {
+			deactivating = append(deactivating, v)
 		}
-		for _, st := range cc.Body {
-			as, ok := st.(*ast.AssignStmt)
-			if !ok || len(as.Lhs) != 1 || len(as.Rhs) != 1 {
-				continue
-			}
-			l, ok := as.Lhs[0].(*ast.SelectorExpr)
-			r, ok2 := as.Rhs[0].(*ast.Ident)
-			if !ok || !ok2 || l.Sel.Name != "status" {
-				continue
-			}
-			switch r.Name {
-			case "ACTIVE":
-				activating = append(activating, sts...)
-			case "INACTIVE":
-				deactivating = append(deactivating, sts...)
-			default:
-				die("updateTaskStatus assigns the task status %s, unknown to the model", r.Name)
-			}
-		}
-		return true
-	})
-	if len(activating) == 0 || len(deactivating) == 0 {
-		die("updateTaskStatus: no `case mesos.TASK_x: ... taskPtr.status = ACTIVE|INACTIVE` clauses found")
 	}
 	sort.Slice(activating, func(i, j int) bool { return activating[i] < activating[j] })
 	sort.Slice(deactivating, func(i, j int) bool { return deactivating[i] < deactivating[j] })
